@@ -36,7 +36,7 @@ TARGETS = [
 ]
 BOUNDS = {
     "histories": "all sequences of <= 3 (quick) / 4 (thorough) operations out of 10 operation kinds, then one of 6 probe rules",
-    "set-ups": "shipped test backend with mapping/state/failure pipeline; verification backend in NOT-as-not-equals mode with the same pipeline; strict field mapping pipeline; external-source placeholder pipeline; verification backend whose query envelope reads the pipeline state with a class-level default",
+    "set-ups": "shipped test backend with mapping/state/failure pipeline; verification backend in NOT-as-not-equals mode with the same pipeline; strict field mapping pipeline; external-source placeholder pipeline; verification backend whose query envelope reads the pipeline state with a class-level default; pipeline that sets / extends the rule's field list and renders it",
     "outside": "longer histories; other processes (C20); external-source value caches (C16 covers their gating)",
 }
 ASSUMPTIONS = ["fresh set-up = new backend instance of the same class, new pipeline from the same YAML, _parse_condition_string.cache_clear(), SigmaModifier._type_hint_cache.clear()"]
@@ -172,7 +172,7 @@ def c15_concrete(o0: int, o1: int, o2: int, o3: int, probe_kind: int, bk: int, p
 
 OBLIGATIONS = (
     [Ob("c15_history", {"BK": 0, "PIPE": 1, "O0LO": o, "O0HI": o, "LEN": 3}, 900) for o in range(1, NOPS)]
-    + [Ob("c15_history", {"BK": bk, "PIPE": pp, "O0LO": lo, "O0HI": lo + 2, "LEN": 2}, 600) for bk, pp in ((1, 1), (0, 2), (0, 3), (2, 1)) for lo in (1, 4, 7)]
+    + [Ob("c15_history", {"BK": bk, "PIPE": pp, "O0LO": lo, "O0HI": lo + 2, "LEN": 2}, 600) for bk, pp in ((1, 1), (0, 2), (0, 3), (2, 1), (0, 4)) for lo in (1, 4, 7)]
     + [Ob("c15_history", {"BK": bk, "PIPE": pp, "O0LO": o, "O0HI": o, "LEN": 3}, 3000, tier="thorough") for bk, pp in ((1, 1), (0, 2), (2, 1)) for o in range(1, NOPS)]
     + [Ob("c15_history", {"BK": 0, "PIPE": 1, "O0LO": o, "O0HI": o, "LEN": 4}, 6000, tier="thorough") for o in range(1, NOPS)]
 )
